@@ -69,6 +69,14 @@ LIBDISKS = ["OneCoreDisk", "FourCoreDisk", "WrappedDisk", "HalfDisk", "QuarterDi
 
 # =================================================================================================
 # generation
+
+def _scale(rng):
+    """model size: 0.1..100, and (10 %) sub-millimetre models drawn in metres (point spacing ~1e-5..1e-4, still far above
+    the library's 1e-7 position tolerance)"""
+    if rng.random() < 0.1:
+        return 10 ** rng.uniform(-4.3, -3.5)
+    return 10 ** rng.uniform(-1, 2)
+
 def _r(x):
     return [float(v) for v in x]
 
@@ -77,7 +85,7 @@ def _embed(rng):
     frame = geom.orthonormal_frame(rng)
     sx, sy = rng.uniform(0.6, 1.8), rng.uniform(0.6, 1.8)
     shear = rng.choice([0.0, 0.0, rng.uniform(-0.5, 0.5)])
-    scale = 10 ** rng.uniform(-1, 2)
+    scale = _scale(rng)
     origin = np.array([rng.uniform(-3, 3) for _ in range(3)]) * scale * rng.choice([0, 1, 1])
     if rng.random() < 0.15:
         frame = np.eye(3)  # the z = 0 plane of the unit tests
@@ -260,7 +268,7 @@ def gen_quad(rng):
 def gen_libdisk(rng):
     name = rng.choice(LIBDISKS)
     frame = geom.orthonormal_frame(rng)
-    scale = 10 ** rng.uniform(-1, 2)
+    scale = _scale(rng)
     c = np.array([rng.uniform(-3, 3) for _ in range(3)]) * scale * rng.choice([0, 1])
     r = scale * rng.uniform(0.5, 2)
     ang = rng.uniform(0, 2 * math.pi)
@@ -318,7 +326,7 @@ def gen_hex(rng):
     if rng.random() < 0.4:
         sh[0, 1] = rng.uniform(-0.4, 0.4)
         sh[1, 2] = rng.uniform(-0.4, 0.4)
-    scale = 10 ** rng.uniform(-1, 2)
+    scale = _scale(rng)
     origin = np.array([rng.uniform(-3, 3) for _ in range(3)]) * scale * rng.choice([0, 1, 1])
     M = frame.T @ sh @ np.diag(sp)
 
@@ -374,7 +382,7 @@ def gen_hex_extruded(rng):
     interior = [k for k in nodes if k not in boundary]
     mode, fixed, calls = _fix_plan(rng, interior, boundary, nbrs, hexes, False)
     frame = geom.orthonormal_frame(rng)
-    scale = 10 ** rng.uniform(-1, 2)
+    scale = _scale(rng)
     origin = np.array([rng.uniform(-3, 3) for _ in range(3)]) * scale * rng.choice([0, 1, 1])
     h = rng.uniform(0.5, 1.2)
     skew = np.array([rng.uniform(-0.2, 0.2), rng.uniform(-0.2, 0.2)]) * rng.choice([0, 1])
